@@ -132,7 +132,15 @@ RULE = ('real EmissionModel/DirectImageModel, 1-40 layers, 1-12 wavenumbers, nga
         'direct image, T-profile class x opacity class in {mid, mixed, saturated, and three classes in which the g-weighted '
         'transmittance of the whole column UNDERFLOWS to exactly zero: at every emission angle, at the most inclined angles '
         'only, at some wavenumbers only - the tables are scaled after a probing run so that the weakest g-point has the drawn '
-        'optical depth}) judged against KTau.emissionK (driver_c20) and the documented integral in k form')
+        'optical depth}) judged against KTau.emissionK (driver_c20) and the documented integral in k form; plus three object-history '
+        'streams: break-down (model_contrib() and model_full_contrib() of one object with >= 2 active gases, a CIA pair, optional '
+        'Rayleigh, four list orders, native or request-clipped grid: every per-contribution / per-component spectrum judged '
+        'against Emission.eclipse/direct on that single contribution and the predicates, the call sequence against '
+        'Emission.contribModelSteps, the star SED afterwards, model() again), regrid (one object asked for windows A, B, A, native '
+        'where A and B clip the native grid to the same number of points at different wavenumbers; every answer judged like a '
+        'fresh run on the restricted tables), switch (one object evaluated, GlobalCache opacity_method switched xsec <-> ktables, '
+        'evaluated again, three evaluations; cross-section evaluations judged against Emission, k-table ones against '
+        'KTau.emissionK)')
 ASSUMPTIONS = ['the opacity of a layer is the tabulated cross-section at the layer (T, P) - bilinear in (T, log10 P), held at the '
                'nearest edge node outside the table, zero below both minima (the statement of C04, model Interp.computeOpacity '
                'served by driver_c04) - times the mixing ratio, summed over the active gases (all tables of a case share the '
@@ -151,7 +159,11 @@ ASSUMPTIONS = ['the opacity of a layer is the tabulated cross-section at the lay
                'broadcasting); `if isinstance(_tau, float)` is translated because both branches have one translation',
                'source tie of partial_model (dyn dialect): the called methods are an oracle that only logs the call; '
                'checked against the real objects by wrapping initialize_profiles / star.initialize / prepare / '
-               'evaluate_emission with recorders (op c02.partial)']
+               'evaluate_emission with recorders (op c02.partial)',
+               'break-down stream: the cross-section of the single contribution / component a spectrum was computed from is read '
+               'from the contribution when its path_integral returns (the molecular absorption is also re-derived from the tables); '
+               'the call sequence of model_contrib is recorded by wrapping initialize_profiles / star.initialize / prepare / '
+               'path_integral (op c02.breakdown)']
 
 MOLS = ['H2O', 'CH4', 'CO2', 'CO', 'NH3']
 CORNERS = ['T>max,P<min', 'T<min,P<min', 'T>max,P>max', 'T<min,P>max']
@@ -264,10 +276,12 @@ def install(c):
     E.install_cia(cias)
 
 
-def observe(m):
-    """run a (possibly reused) model object; returns everything observed, parameters read back from the object"""
-    I, _mu, _w, ptau = m.partial_model()
-    grid, flux, tau, _ = m.model()
+def observe(m, wngrid=None):
+    """run a (possibly reused) model object (on its native grid, or clipped to the request grid `wngrid`); returns everything
+    observed, parameters read back from the object"""
+    kw = {} if wngrid is None else dict(wngrid=np.asarray(wngrid, float))
+    I, _mu, _w, ptau = m.partial_model(**kw)
+    grid, flux, tau, _ = m.model(**kw)
     return dict(I=np.array(I, float), muinv=np.array(_mu, float).ravel(), w=np.array(_w, float).ravel(),
                 tau=np.array(tau, float), ptau=np.array(ptau, float),
                 grid=np.array(grid, float), flux=np.array(flux, float).ravel(),
@@ -759,6 +773,13 @@ def eval_kcase(ctx, c, scratch):
         ctx.violation('ktables:raises:' + kind, 'forward model in correlated-k mode raised %r on a valid atmosphere' % (e,),
                       dict(c, small=small))
         return
+    judge_kcase(ctx, c, ok, small)
+
+
+def judge_kcase(ctx, c, ok, small, kp='ktables:'):
+    """all comparisons and predicates for one observed correlated-k run `ok` of the case `c`"""
+    spec, kind = c['spec'], c['kind']
+    w = np.asarray(c['weights'], float)
     case = dict(c, small=small)
     nus, nq = ok['grid'], spec['ngauss']
     xs, wts = np.polynomial.legendre.leggauss(nq)
@@ -800,7 +821,7 @@ def eval_kcase(ctx, c, scratch):
     ctx.bucket('ktables:surface-transmittance-underflows:' + ('all-angles-all-wavenumbers' if un.all() else
                'all-angles-some-wavenumbers' if un.all(axis=0).any() else 'some-angles' if un.any() else 'nowhere'))
     # ---- the property's own predicates on the real code (documented integral, hot / cold bounds, isothermal identity)
-    predicates(ctx, dict(c, kind=kind), ok, ref, small, kp='ktables:')
+    predicates(ctx, dict(c, kind=kind), ok, ref, small, kp=kp)
 
 
 def run_ktables(ctx):
@@ -942,6 +963,356 @@ def reuse_case(ctx, c, nsteps=3):
             judge(ctx, case, o, small, kp='stale-state:')
 
 
+# ------------------------------------------------------------------------------------------- object histories
+# One model object used the way the program / a plotting script / a retrieval over several instruments uses it: several flux
+# normalisations per Star.initialize (model_contrib, model_full_contrib), the same object asked for different spectral windows,
+# the global opacity method switched between two evaluations.  Every spectrum an object hands out is judged like a fresh run.
+def _licensed(impl, cut, uncut, band, floor):
+    impl, cut, uncut, band = (np.asarray(x, float).ravel() for x in (impl, cut, uncut, band))
+    if impl.shape != cut.shape:
+        return False
+    for a, b, u, bd in zip(impl, cut, uncut, band):
+        if C.close(a, b, rel=1e-8, abs_=floor):
+            continue
+        if abs(a - u) <= bd * (1 + 1e-6) + 1e-8 * abs(u) + floor:
+            continue
+        return False
+    return True
+
+
+def judge_spectrum(ctx, c, o, small, kp, what, tables=False):
+    """one spectrum `o['flux']` on `o['grid']` that the object computed from the contributions `o['contribs']`: against
+    Emission.eclipse / Emission.direct (op c02.emission, mismatch), then the property's predicates on the real code (documented
+    integral, hot / cold bounds, isothermal identity; with `tables` also the integral over the opacities the tables give)"""
+    kind, nq = c['kind'], c['spec']['ngauss']
+    xs, wts = np.polynomial.legendre.leggauss(nq)
+    nus = o['grid']
+    d = ctx.model().call('c02.emission', *pc_tokens(), C.F(np.pi),
+                         C.L(nus), C.L(o['contribs'], lambda kc: C.N(kc[0]) + ' ' + C.LL(kc[1].tolist())),
+                         C.L(o['dz']), C.L(o['dens']), C.L(o['T']), C.L(xs), C.L(wts), C.F(o['tstar']),
+                         C.F(o['rp']), C.F(o['rs']), C.F(o['dist']), C.F(PARSEC))
+    mecl, mdir, mfu = [], [], []
+    for _ in range(d.nat()):
+        d.list()
+        d.flt()
+        d.flt()
+        mecl.append(d.flt())
+        mdir.append(d.flt())
+        mfu.append(d.flt())
+    mecl, mdir, mfu = (np.array(x) for x in (mecl, mdir, mfu))
+    el = E.layer_elements(o['contribs'], o['dz'], o['dens']) if o['contribs'] else np.zeros((len(o['T']), len(nus)))
+    ref = E.ref_emission(nus, el, o['T'], o['mu_quads'], o['wi_quads'], clamp=10.0)
+    scale = float(np.max(ref['B'])) if ref['B'].size else 0.0
+    # the model divides by planck(T*) itself: the star's stored SED is not an input of this comparison
+    fac = (o['rp'] / o['rs']) ** 2 / E.planck_np(nus, o['tstar']) if kind == 'emission' else \
+        np.full(len(nus), o['rp'] ** 2 / (2 * (o['dist'] * PARSEC) ** 2))
+    ctx.disagreements_checked += 1
+    ff = 1e-12 * scale * float(np.max(np.abs(fac))) if len(nus) else 0.0
+    if not _licensed(o['flux'], mecl if kind == 'emission' else mdir, mfu * fac, ref['band_flux'] * fac, ff):
+        ctx.mismatch(what + ' vs Emission.eclipse/direct', dict(c, small=small),
+                     dict(impl=o['flux'], model=mecl if kind == 'emission' else mdir, uncut=mfu * fac))
+    if tables:
+        tables_check(ctx, c, o, small, kp)
+    predicates(ctx, c, o, ref, small, kp)
+    return ref
+
+
+def breakdown_case(ctx, c):
+    """model_contrib() and model_full_contrib() of one model object: the star is initialised once, then one spectrum per
+    contribution / per component is integrated and normalised.  Each of them is the spectrum of the atmosphere with only that
+    absorber: judged against the model on that single contribution (its cross-section captured when path_integral runs; for
+    the molecular absorption also re-derived from the tables), with the property's predicates; afterwards the star's SED must
+    still be the blackbody on the grid, and model() on the same object is judged again."""
+    spec, kind = c['spec'], c['kind']
+    req = (c.get('history') or {}).get('request')
+    kw = {} if req is None else dict(wngrid=np.asarray(req, float))
+    hist = dict(type='breakdown', request=req)
+    c = dict(c, history=hist)
+    with E.CacheState():
+        install(c)
+        try:
+            m = E.build_model(kind, dict(spec))
+            rec = []
+            orig = m.path_integral
+
+            tracing = []
+
+            def recorder(wngrid, return_contrib):
+                for t in tracing:
+                    t(wngrid, return_contrib)
+                r = orig(wngrid, return_contrib)
+                rec.append(E.contribution_inputs(m))        # copies: the contribution re-uses its buffer
+                return r
+            m.path_integral = recorder                      # an instance attribute shadows the method
+            try:
+                # the calls of model_contrib (profiles, star, prepare, one integral per contribution), recorded like
+                # trace_partial does (the integrals are logged when they start)
+                from taurex.util.util import clip_native_to_wngrid
+                native = np.array(m.nativeWavenumberGrid, float)
+                clipped = np.array(clip_native_to_wngrid(native, kw['wngrid']), float) if kw else None
+                full_list = list(m.contribution_list)
+                log, undo = [], []
+
+                def gid(g):
+                    g = np.asarray(g, float)
+                    if g.shape == native.shape and np.array_equal(g, native):
+                        return 0
+                    return 1 if clipped is not None and g.shape == clipped.shape and np.array_equal(g, clipped) else 9
+
+                def wrap(obj, name, what):
+                    f = getattr(obj, name)
+
+                    def wr(*a, **k2):
+                        log.append(what(*a, **k2))
+                        return f(*a, **k2)
+                    setattr(obj, name, wr)
+                    undo.append(lambda: delattr(obj, name))
+                wrap(m, 'initialize_profiles', lambda *a, **k2: (0, 0, 0))
+                wrap(m._star, 'initialize', lambda g, *a, **k2: (1, gid(g), 0))
+                tracing.append(lambda g, rc: log.append((4, full_list.index(m.contribution_list[0]), gid(g))
+                                                        if rc is False and len(m.contribution_list) == 1 else (4, 9, 9)))
+                for i, cb in enumerate(full_list):
+                    wrap(cb, 'prepare', lambda mod, g, i=i, **k2: (2, i, gid(g)) if mod is m else (2, 9, 9))
+                try:
+                    g1, d1 = m.model_contrib(**kw)
+                finally:
+                    for u in undo[::-1]:
+                        u()
+                    del tracing[:]
+                n1 = len(rec)
+                g2, d2 = m.model_full_contrib(**kw)
+            finally:
+                del m.path_integral
+            sed_after = np.array(m.star.spectralEmissionDensity, float)
+            base = dict(dz=np.array(m.deltaz, float), dens=np.array(m.densityProfile, float),
+                        T=np.array(m.temperatureProfile, float), P=np.array(m.pressureProfile, float),
+                        mu_quads=np.array(m._mu_quads, float), wi_quads=np.array(m._wi_quads, float),
+                        rp=float(m.planet.fullRadius), rs=float(m.star.radius), dist=float(m.star.distance),
+                        tstar=float(m.star.temperature))
+            active = [str(g) for g in m.chemistry.activeGases]
+            mix = {g: np.array(m.chemistry.get_gas_mix_profile(g), float) for g in active}
+            after = observe(m, req)
+        except Exception as e:
+            ctx.violation('breakdown:raises:' + kind, 'model_contrib / model_full_contrib raised %r on a valid atmosphere' % (e,), c)
+            return
+    parts = [('model_contrib', name, None, np.array(v[0], float).ravel(), np.array(g1, float)) for name, v in d1.items()]
+    parts += [('model_full_contrib', name, str(comp[0]), np.array(comp[1], float).ravel(), np.array(g2, float))
+              for name, comps in d2.items() for comp in comps]
+    base_small = dict(kind=kind, nlayers=spec['nlayers'], ngauss=spec['ngauss'], tclass=c.get('tclass'),
+                      regime=c.get('regime'), nwn=len(c['wn']), request=req is not None)
+    if len(parts) != len(rec) or len(d1) != n1 or any(len(r) != 1 for r in rec):
+        ctx.mismatch('break-down: one path_integral over one contribution per returned spectrum', dict(c, small=base_small),
+                     dict(spectra=len(parts), integrals=len(rec), per_integral=[len(r) for r in rec]))
+        return
+    full = len(g1) == len(c['wn'])
+    if req is None or clipped.shape != native.shape:         # (else the clipped grid cannot be told from the native one)
+        dm = ctx.model().call('c02.breakdown', C.N(len(full_list)), C.N(0 if req is None else 1))
+        steps = dm.list(lambda: (dm.nat(), dm.nat(), dm.nat()))
+        norm = dm.list(lambda: (dm.nat(), dm.nat(), dm.nat()))
+        ctx.check_eq('model_contrib call sequence vs Emission.contribModelSteps', [tuple(x) for x in log],
+                     [tuple(x) for x in steps], dict(base_small, ncontrib=len(full_list)))
+        # what the model derives from the sequence (Props/C02.lean breakdown_normalised_on_own_grid), on the recorded calls: every
+        # integral after a star initialisation on its own grid
+        last, impl_norm = 9, []
+        for kd, a, b in log:
+            if kd == 1:
+                last = a
+            elif kd == 4:
+                impl_norm.append((a, b, last))
+        ctx.check_eq('grid of the stellar SED each per-contribution flux is divided by vs Emission.normalisedBy', impl_norm,
+                     [tuple(x) for x in norm], dict(base_small, ncontrib=len(full_list)))
+        ctx.bucket('breakdown:model_contrib:call-sequence-compared')
+    ctx.case(key=('breakdown', kind, spec['nlayers'], spec['ngauss'], c.get('tclass'), c.get('regime'), n1, len(parts) - n1),
+             sample=dict(base_small, contributions=list(d1), components=len(parts) - n1),
+             bucket='breakdown:kind:' + kind)
+    ctx.bucket('breakdown:model_contrib:contributions:%d' % n1)
+    ctx.bucket('breakdown:model_full_contrib:components:%d' % (len(parts) - n1))
+    ctx.bucket('breakdown:grid:' + ('request-clipped' if req is not None else 'native'))
+    seen = {}
+    for (route, name, comp, flux, grid), contribs in zip(parts, rec):
+        i = seen[route] = seen.get(route, -1) + 1
+        small = dict(base_small, route=route, part=name if comp is None else name + '/' + comp, index=i)
+        o = dict(base, grid=grid, flux=flux, contribs=contribs)
+        molecular = name == 'Absorption'
+        if molecular:
+            o.update(active=active if comp is None else [comp], mix=mix)
+        ctx.bucket('breakdown:%s:%s' % (route, 'first-spectrum-after-star-initialize' if i == 0 else
+                                        'later-spectrum-after-star-initialize'))
+        ctx.bucket('breakdown:part:' + name)
+        judge_spectrum(ctx, c, o, small, 'breakdown:%s:' % route, '%s() spectrum of %s' % (route, small['part']),
+                       tables=molecular and full and all(g in (c.get('tables') or {}) for g in o['active']))
+    # the star after the run: still the blackbody of its temperature on the grid of the run
+    ctx.check_close('star SED after model_contrib / model_full_contrib vs planck(T*)', sed_after,
+                    E.planck_np(np.array(g2, float), base['tstar']), dict(c, small=base_small), rel=1e-8)
+    # and the same object evaluated once more
+    judge_spectrum(ctx, c, after, dict(base_small, route='model() after the break-down'), 'breakdown:after:',
+                   'model() after the break-down')
+    ctx.check_close('star SED after model() after the break-down vs planck(T*)', after['sed'],
+                    E.planck_np(after['grid'], after['tstar']), dict(c, small=base_small), rel=1e-8)
+
+
+def run_breakdown(ctx):
+    """atmospheres with at least two contributions and at least two components in one of them: >= 2 active gases, a CIA pair,
+    optionally Rayleigh scattering, in several list orders; every third case on a request grid that clips the native one"""
+    rng = ctx.rng
+    for k in range(ctx.n(40, 300)):
+        c = None
+        while c is None or len(c['spec']['gases']) < 2:
+            c = gen_case(rng, k + 35 * int(rng.integers(0, 3)), thorough=False)     # T class k % 5, regime (k // 5) % 7
+            c.pop('wn_dtype', None)
+        c['kind'] = 'direct' if k % 6 == 5 else 'emission'
+        wn = np.asarray(c['wn'], float)
+        if not c.get('cia'):
+            pair = 'H2-He' if rng.random() < 0.5 else 'H2-H2'
+            ce = {'zero': -80, 'thin': -62, 'mid': -54, 'saturated': -46, 'mixed': -54}[c['regime']]
+            c['cia'] = dict(pair=pair, tg=np.sort(rng.choice(np.arange(100.0, 3500.0, 100.0), size=3, replace=False)),
+                            tab=10 ** (ce + rng.uniform(-2, 2, size=(3, len(wn)))))
+            c['spec']['cia'] = [pair]
+        order = [['absorption', 'cia'], ['absorption', 'cia', 'rayleigh'], ['absorption', 'rayleigh', 'cia'],
+                 ['cia', 'absorption']][k % 4]
+        c['spec']['contribs'] = order
+        if k % 3 == 2 and len(wn) >= 4:
+            c['history'] = dict(type='breakdown', request=[float(x) for x in wn[:max(2, len(wn) // 2 + 1)]])
+        breakdown_case(ctx, c)
+
+
+def _restrict(c, grid):
+    """the case restricted to the columns of the clipped grid (its tables are those columns of the native tables)"""
+    wn = np.asarray(c['wn'], float)
+    idx = [int(np.argmin(np.abs(wn - g))) for g in grid]
+    if len(idx) != len(grid) or not np.array_equal(wn[idx], np.asarray(grid, float)):
+        return dict(c, tables=None)
+    return dict(c, wn=wn[idx], tables={nm: dict(t, tab=np.asarray(t['tab'], float)[:, :, idx]) for nm, t in c['tables'].items()})
+
+
+def _windows(wn):
+    """request grids for one native grid: two windows A, B that clip the native grid to the same number of points at different
+    wavenumbers (disjoint where the grid allows), asked in the order A, B, A, native"""
+    from taurex.util.util import clip_native_to_wngrid
+    cands = []
+    for n in range(1, len(wn)):
+        for i in range(len(wn) - n + 1):
+            req = np.linspace(wn[i] - 1.0, wn[i + n - 1] + 1.0, 9)
+            cands.append((req, np.array(clip_native_to_wngrid(wn, req), float)))
+    best = None
+    for a in range(len(cands)):
+        for b in range(a + 1, len(cands)):
+            ga, gb = cands[a][1], cands[b][1]
+            if len(ga) == len(gb) and 0 < len(ga) < len(wn) and not np.array_equal(ga, gb):
+                score = (len(set(ga.tolist()) & set(gb.tolist())) == 0, len(ga))
+                if best is None or score > best[0]:
+                    best = (score, cands[a][0], cands[b][0])
+    if best is None:
+        n = max(2, len(wn) // 2)
+        return [[float(x) for x in wn[:n]], [float(x) for x in wn[-n:]], [float(x) for x in wn[:n]], None]
+    A, B = [float(x) for x in best[1]], [float(x) for x in best[2]]
+    return [A, B, A, None]
+
+
+def regrid_case(ctx, c):
+    """one model object asked for several spectral windows in turn (request grids; two of them clip the native grid to the
+    same number of points at different wavenumbers), then for the native grid: every answer judged like a fresh run on that
+    grid, the star's SED included"""
+    spec, kind = c['spec'], c['kind']
+    wn = np.asarray(c['wn'], float)
+    h = (c.get('history') or {}).get('windows')
+    if h is None:
+        h = _windows(wn)
+    native = {kk: v for kk, v in c.items() if kk not in ('history', 'native')}
+    c = dict(c, history=dict(type='regrid', windows=h))
+    base_small = dict(kind=kind, nlayers=spec['nlayers'], ngauss=spec['ngauss'], tclass=c.get('tclass'),
+                      regime=c.get('regime'), cia=bool(c.get('cia')), nwn=len(wn))
+    prev = None
+    with E.CacheState():
+        install(c)
+        try:
+            m = E.build_model(kind, dict(spec))
+        except Exception as e:
+            ctx.violation('raises:' + kind, 'forward model raised %r on a valid atmosphere' % (e,), c)
+            return
+        for step, req in enumerate(h):
+            small = dict(base_small, window_step=step)
+            try:
+                o = observe(m, req)
+            except Exception as e:
+                ctx.violation('regrid:raises:' + kind, 'model(wngrid=...) raised %r on a reused model object' % (e,),
+                              dict(c, small=small))
+                return
+            g = o['grid']
+            if prev is not None:
+                ctx.bucket('regrid:grid-vs-previous:' + ('same' if g.shape == prev.shape and np.array_equal(g, prev) else
+                                                         'same-length-other-wavenumbers' if g.shape == prev.shape else
+                                                         'other-length'))
+            prev = g
+            judge(ctx, dict(_restrict(c, g), history=dict(c['history'], step=step), native=native), o, small, kp='regrid:')
+    ctx.bucket('regrid:histories')
+
+
+def run_regrid(ctx):
+    k = 0
+    for _ in range(ctx.n(30, 200)):
+        c = None
+        while c is None or len(c['wn']) < 4 or c.get('wn_dtype'):
+            c = gen_case(ctx.rng, k, thorough=False)
+            k += 1
+        regrid_case(ctx, c)
+
+
+def switch_case(ctx, c, scratch):
+    """one model object evaluated under one opacity method, the global `opacity_method` switched (cross-sections <-> k-tables
+    of the same molecules), evaluated again: the cross-section evaluations judged against Emission (op c02.emission), the
+    k-table ones against KTau.emissionK (driver_c20), each with the property's predicates"""
+    spec, kind = c['spec'], c['kind']
+    w = np.asarray(c['weights'], float)
+    order = (c.get('history') or {}).get('order') or ['xsec', 'ktables', 'xsec']
+    c = dict(c, history=dict(type='switch', order=list(order)))
+    base_small = dict(kind=kind, kclass=c.get('kclass'), tclass=c.get('tclass'), nlayers=spec['nlayers'],
+                      ngauss=spec['ngauss'], ng=len(w), nwn=len(c['wn']), cia=bool(c.get('cia')))
+    with E.CacheState():
+        try:
+            # both opacity sets registered: k-table files in the scratch directory, cross-sections and CIA in memory
+            E.install_tables(c['wn'], c['tables'], c.get('cia'), 'ktables', scratch, w)
+            install(c)
+            if order[0] == 'ktables':
+                E.use_ktables(scratch)
+            m = E.build_model(kind, dict(spec))
+        except Exception as e:
+            ctx.violation('raises:' + kind, 'forward model raised %r on a valid atmosphere' % (e,), c)
+            return
+        from taurex.cache import GlobalCache
+        for step, mode in enumerate(order):
+            small = dict(base_small, switch_step=step, mode=mode)
+            GlobalCache()['opacity_method'] = mode
+            try:
+                o = observe(m) if mode == 'xsec' else E.observe_model(m, kind)
+            except Exception as e:
+                ctx.violation('switch:raises:' + kind, 'model() raised %r after opacity_method was set to %s on a used '
+                              'model object' % (e, mode), dict(c, small=small))
+                return
+            ctx.bucket('switch:%s:%s' % ('first-evaluation' if step == 0 else 'after-%s' % order[step - 1], mode))
+            cs = dict(c, history=dict(c['history'], step=step))
+            if mode == 'xsec':
+                judge(ctx, cs, o, small, kp='switch:')
+            else:
+                judge_kcase(ctx, cs, o, small, kp='switch:ktables:')
+
+
+def run_switch(ctx):
+    import shutil
+    import tempfile
+    scratch = tempfile.mkdtemp(prefix='verif_c02_')
+    try:
+        for k in range(ctx.n(24, 150)):
+            c = gen_kcase(ctx.rng, 6 * k + (1 if k % 2 == 0 else 3))       # k-distribution classes mid / mixed, T classes cycle
+            for t in c['tables'].values():
+                kc = np.asarray(t['kcoeff'], float)
+                t['tab'] = np.exp(np.log(kc).mean(axis=-1))              # a cross-section table of the same molecule
+            c['history'] = dict(type='switch', order=['xsec', 'ktables', 'xsec'] if k % 3 else ['ktables', 'xsec', 'ktables'])
+            switch_case(ctx, c, scratch)
+    finally:
+        shutil.rmtree(scratch, ignore_errors=True)
+
+
 def run(ctx):
     validate_leggauss(ctx)
     validate_planck(ctx)
@@ -951,6 +1322,9 @@ def run(ctx):
     for k in range(ctx.n(80, 1500)):
         reuse_case(ctx, gen_case(ctx.rng, k, thorough=False))
     run_ktables(ctx)
+    run_breakdown(ctx)
+    run_regrid(ctx)
+    run_switch(ctx)
     malformed(ctx)
 
 
@@ -958,6 +1332,24 @@ def replay(ctx, case):
     case = dict(case.get('case', case))      # a replays/*.json payload or a bare case
     case.pop('small', None)
     case.pop('reuse', None)       # a reuse-stream case replays as a fresh run on the final parameter values
+    hist = case.get('history')
+    if hist:                      # an object history replays as the whole history on the stored (native) case
+        hist = dict(hist)
+        hist.pop('step', None)
+        case = dict(case.pop('native', case), history=hist)
+        if hist['type'] == 'breakdown':
+            breakdown_case(ctx, case)
+        elif hist['type'] == 'regrid':
+            regrid_case(ctx, case)
+        else:
+            import shutil
+            import tempfile
+            scratch = tempfile.mkdtemp(prefix='verif_c02_')
+            try:
+                switch_case(ctx, case, scratch)
+            finally:
+                shutil.rmtree(scratch, ignore_errors=True)
+        return
     if case.get('mode') == 'ktables':
         import shutil
         import tempfile
